@@ -29,11 +29,11 @@ def _in_range(m, w):
 
 
 @symx("C09-measurement-get", timeout=600, kind="S", functions=F_M, stubs=STUBS,
-      bounds="any raw (minimum, maximum) in [-5,80]^2 returned by __rich_measure__ (also via __rich__ cast and without a measure "
-             "method) x every available width 0..60: 0 <= minimum <= maximum <= width")
+      bounds="any raw (minimum, maximum) in [-50,400]^2 returned by __rich_measure__ (also via __rich__ cast and without a measure "
+             "method) x every available width 0..300: 0 <= minimum <= maximum <= width")
 def c09_get(e):
-    mn, mx = e.mk("raw_min", -5, 80), e.mk("raw_max", -5, 80)
-    w = e.mk("w", 0, 60)
+    mn, mx = e.mk("raw_min", -50, 400), e.mk("raw_max", -50, 400)
+    w = e.mk("w", 0, 300)
     c = kernel.console()
     m1 = Measurement.get(c, SymCell(mn, mx), w)
     m2 = Measurement.get(c, _Cast(SymCell(mn, mx)), w)
@@ -88,7 +88,7 @@ def _mk_table_measure(n, oname, tiers, timeout):
           bounds="Measurement.get of a real Table (box=None, %d columns, options %r) with stub cells (0<=min<=max<=40), available "
                  "width 0..60: 0 <= minimum <= maximum <= width" % (n, opts))
     def h(e):
-        t, cells = kernel.mk_table(e, n, opts)
+        t, cells = kernel.mk_table(e, n, opts, cell_hi=40)
         w = e.mk("w", 0, 60)
         m = Measurement.get(kernel.console(), t, w)
         return _in_range(m, w)
